@@ -16,7 +16,7 @@ func c20WitnessOps() []c20Op {
 	r := func(v int) c20Op { return c20Op{Kind: "render", V: v} }
 	ch := func(v int, its ...c20Item) c20Op { return c20Op{Kind: "append", V: v, Items: its, Chained: true} }
 	st := func(s string) c20Item { return c20Item{Node: term.S(term.Id(s)), Text: s} }
-	add3 := c20Op{Kind: "append", V: 0, Items: []c20Item{st("a"), st("b"), st("c")}} // one Add(a, b, c): cap 3
+	add3 := c20Op{Kind: "append", V: 0, Items: []c20Item{st("a"), st("b"), st("c")}}                      // one Add(a, b, c): cap 3
 	return []c20Op{{Kind: "new", V: 0}, add3, ch(0, id("d")), {Kind: "clone", V: 1, From: 0}, r(0), r(1), // d: cap 6, len 4
 		ch(1, id("x")), r(0), r(1), ch(0, id("y")), r(0), r(1)}
 }
